@@ -676,7 +676,11 @@ class Node:
         if hasattr(msg, "session_id"):
             answer_msg.session_id = msg.session_id
         if hasattr(msg, "proxy_info"):
-            answer_msg.proxy_info = msg.proxy_info
+            # a list of its own: the answer's list is the application's to edit
+            if isinstance(msg.proxy_info, list):
+                answer_msg.proxy_info = list(msg.proxy_info)
+            else:
+                answer_msg.proxy_info = msg.proxy_info
 
         return answer_msg
 
